@@ -16,7 +16,8 @@ from uberjob._transformations import caching
 from uberjob._util.retry import identity
 from uberjob.progress._null_progress_observer import NullProgressObserver
 
-BASE = dt.datetime(2021, 3, 4, 5, 6, 7)
+PAST, FUTURE = dt.datetime(2021, 3, 4, 5, 6, 7), dt.datetime(2093, 3, 4, 5, 6, 7)
+BASE = PAST          # every fourth history plays in the FUTURE of the machine's clock (no decision may depend on "now")
 
 # The in-memory stores report NAIVE datetimes (= local time, as the bundled file stores do) and `fresh_time` is passed naive
 # as well.  The process zone of these checks is deliberately NOT UTC (a fixed +05:30, POSIX form, no zone database needed):
@@ -514,6 +515,8 @@ def exec_request(b, snap, c0, stale, out, events, value, ok, cmd="exec"):
 # ------------------------------------------------------------------------------------------- one history
 def run_history(spec, hseed, steps, driver, props, mode="prim", stress=False):
     """Returns (violations, disagreements, stats)."""
+    global BASE
+    BASE = FUTURE if hseed % 4 == 3 else PAST
     rng = random.Random(hseed)
     env = Env()
     b = build_cache(spec, env)
